@@ -340,13 +340,17 @@ func RunDFS(c *Ctx, pool *Pool, scenario string, params any, bound int, maxExecs
 		st.Pruned += r.Pruned
 		st.Aux += r.Aux
 		for _, h := range r.HBTraces {
-			st.HBTraces[h] = true
+			if len(st.HBTraces) < 4<<20 {
+				st.HBTraces[h] = true
+			}
 		}
 		if r.MaxPoints > st.MaxPoints {
 			st.MaxPoints = r.MaxPoints
 		}
 		for _, h := range r.Hists {
-			st.Hists[h] = true
+			if len(st.Hists) < 4<<20 {
+				st.Hists[h] = true
+			}
 		}
 		for k, v := range r.Outcomes {
 			st.Outcomes[k] += v
@@ -363,8 +367,10 @@ func RunDFS(c *Ctx, pool *Pool, scenario string, params any, bound int, maxExecs
 	}
 	level := []DFSTask{{Scenario: scenario, Params: pj, Prefix: nil, Budget: bound, Deadline: deadline, MaxExecs: maxExecsPerTask, Expand: true, Preempt: len(preempt) > 0 && preempt[0],
 		HB: UseHB, Weighted: UseWeighted, RunID: fmt.Sprintf("%s/%d/%d", scenario, bound, time.Now().UnixNano())}}
-	// expand two levels (root, then its children) to get enough subtrees for 16 workers
-	for depth := 0; depth < 2 && len(level) > 0; depth++ {
+	// expand the root, and its children too while that still yields a manageable number of
+	// subtrees (enough for 16 workers; with thousands of choice points per execution - statement
+	// granularity - a second expansion would create tens of millions of task descriptions)
+	for depth := 0; depth < 2 && len(level) > 0 && (depth == 0 || len(level) <= 512); depth++ {
 		var tasks [][]byte
 		for i := range level {
 			level[i].Expand = true
@@ -386,18 +392,21 @@ func RunDFS(c *Ctx, pool *Pool, scenario string, params any, bound int, maxExecs
 		})
 		level = next
 	}
-	if len(level) > 0 {
+	st.Subtrees = len(level)
+	// in chunks: the encoded task descriptions of one chunk at a time
+	const chunk = 2048
+	for start := 0; start < len(level); start += chunk {
+		end := min(start+chunk, len(level))
 		var tasks [][]byte
-		for i := range level {
+		for i := start; i < end; i++ {
 			level[i].Expand = false
 			tasks = append(tasks, MustJSON(level[i]))
 		}
-		st.Subtrees = len(tasks)
 		pool.Map(tasks, func(i int, b []byte, err error) {
 			if err != nil {
 				st.Capped = true
 				if v := CrashViol(err); v != nil {
-					st.Viols = append(st.Viols, DFSViolation{Choices: level[i].Prefix, Viol: v, Verdict: "worker-crash"})
+					st.Viols = append(st.Viols, DFSViolation{Choices: level[start+i].Prefix, Viol: v, Verdict: "worker-crash"})
 				}
 				return
 			}
@@ -405,6 +414,12 @@ func RunDFS(c *Ctx, pool *Pool, scenario string, params any, bound int, maxExecs
 			json.Unmarshal(b, &r)
 			merge(&r)
 		})
+		for i := start; i < end; i++ {
+			level[i].Prefix = nil
+		}
+		if st.Capped && time.Now().Unix() >= deadline {
+			break
+		}
 	}
 	return st
 }
